@@ -515,6 +515,13 @@ example : FuncRow.ok ⟨"MultiCoil.forward", [⟨"MultiCoil.forward", 3, "reshap
 example : batchedPermute [0, 2, 1] [.node [.node [.leaf 1, .leaf 2], .node [.leaf 3, .leaf 4]]] = [.node [.node [.leaf 1, .leaf 3], .node [.leaf 2, .leaf 4]]] := rfl
 example : multiCoilFold (· + 1) 2 [[1, 2], [5, 6], [8, 9]] = [[2, 3], [6, 7], [9, 10]] := by decide
 example : ([1, 0] : List Nat).Perm (List.range ([((1, 2), (3, 4)), ((0, 1), (5, 6))] : List (G × G)).length) := by decide
+example : ModelRow.ok [⟨"Unet2d.forward", [⟨"Unet2d.forward", 0, "sum", 0, [1], 0⟩, ⟨"Unet2d.forward", 2, "permute", 0, [0, 3, 1, 2], 0⟩]⟩] ("Unet2d", [0]) = true := by decide
+example : ModelRow.ok [⟨"ConjGrad.cg", [⟨"ConjGrad.cg", 0, "mean", 1, [], 0⟩]⟩] ("ConjGradNet", [0]) = false := by decide
+example : ∀ s x, ((fun (s : Store) (x : Int) => (([] : List (Loc × Int)), x + s (Loc.attr "weight"))) s x).1 = [] := fun _ _ => rfl
+example : EffRow.ok ⟨"RIM.forward", 3, "RIM._zero_states[key]"⟩ = false := by decide
+example : EffRow.ok ⟨"RIM.forward", 9, "cell_output.set_"⟩ = true := by decide
+example : (dcExpr (1, 1)).eval cadd (0, 0) (gather [1, 0] [((1, 2), (3, 4)), ((0, 1), (5, 6))]) =
+    (dcExpr (1, 1)).eval cadd (0, 0) [((1, 2), (3, 4)), ((0, 1), (5, 6))] := by decide
 theorem natAbs_le_foldl_max (l : List Int) (m : Nat) :
     m ≤ l.foldl (fun m a => max m a.natAbs) m ∧ ∀ a ∈ l, a.natAbs ≤ l.foldl (fun m a => max m a.natAbs) m := by
   induction l generalizing m with
